@@ -11,6 +11,7 @@ Exit codes used by every check:  0 property held on everything explored (KNOWN-F
                                  2 ERROR (machinery problem: build failure, TLC crash/timeout, dead driver)
 """
 import atexit
+import glob
 import json
 import os
 import re
@@ -367,6 +368,12 @@ class Verdict:
 
     def __init__(self, pid):
         self.pid = pid
+        # replays of earlier runs of this check are stale
+        for f in glob.glob(os.path.join(REPLAYS, "%s.*.json" % pid)):
+            try:
+                os.remove(f)
+            except OSError:
+                pass
         self.violations = []      # (signature, description, replay_path)
         self.known_seen = {}      # finding id -> description
         self.more = {}
